@@ -98,6 +98,51 @@ def step (op : String) (gs : List (List Int)) : String :=
         okLast (conjGradForward P.ops u iters.toNat (stopQ (qOf tnum tden)) ⟨qOf lnum lden, Q.zero⟩
           (vecLast y 1) (vecLast z 1))
     | _, _ => "err BadOp"
+  | "site", [[n, c, code], f, [fden], bw, [bden], s, mask, g1, g2, g3] =>
+    -- the forms of the phase-2 sites (see `Bridge/C19.lean`), all in the complex-last layout
+    match mkProblem n.toNat c.toNat f fden bw bden s mask with
+    | none => "err BadOp"
+    | some P =>
+      let o := P.ops
+      let ox := P.opsX
+      let img (g : List Int) : Option Vec := if g.length = 2 * P.n then some (vecLast g 1) else none
+      let ksp (g : List Int) : Option Vec := if g.length = 2 * P.c * P.n then some (vecLast g 1) else none
+      match code, img g1, ksp g1, ksp g2, ksp g3 with
+      | 0, _, some k, some y, _ => okLast (softDC o k y)
+      | 1, _, some k, _, _ => okLast (sense o k)
+      | 2, some x, _, _, _ => okLast (feOp o x)
+      | 3, some x, _, _, _ => okLast (aOp o x)
+      | 4, _, some k, _, _ => okLast (aStar o k)
+      | 5, some x, _, some y, _ => okLast (dcGradTwice o x y)
+      | 6, some x, _, some y, _ => okLast (dcGradAfter o x y)
+      | 7, some x, _, some y, _ => okLast (hardDC ox x y)
+      | 8, some x, _, some y, _ => okLast (sensGrad ox x y)
+      | 9, some x, _, some k, some y => okLast (cirimKspace o x k y)
+      | 10, some x, _, _, _ => okLast (ox.maskC (feOp o x))
+      | _, _, _, _, _ => "err BadOp"
+  | "cgbatch", [n, c, nb, iters, ut] :: f :: [fden] :: bw :: [bden] :: [lnum, lden] :: [tnum, tden] :: rest =>
+    -- per sample five groups: S | mask | x0 | y | z
+    match updateOf ut with
+    | none => "err BadOp"
+    | some u =>
+      if rest.length ≠ 5 * nb.toNat ∨ lden = 0 ∨ tden = 0 then "err BadOp" else
+      let samples : List (Option (Sample GQ Vec Vec)) := (List.range nb.toNat).map fun b =>
+        match rest.drop (5 * b) with
+        | s :: mask :: x0 :: y :: z :: _ =>
+          match mkProblem n.toNat c.toNat f fden bw bden s mask with
+          | some P =>
+            if x0.length ≠ 2 * P.n ∨ z.length ≠ 2 * P.n ∨ y.length ≠ 2 * P.c * P.n then none
+            else some { o := P.ops, x0 := vecLast x0 1, y := vecLast y 1, z := vecLast z 1 }
+          | none => none
+        | _ => none
+      match samples.mapM id with
+      | none => "err BadOp"
+      | some ss =>
+        let lam : GQ := ⟨qOf lnum lden, Q.zero⟩
+        let tol := qOf tnum tden
+        let lo := cgBatch u iters.toNat (fun rrs => (stopQB tol rrs).getD false) lam ss
+        let hi := cgBatch u iters.toNat (fun rrs => (stopQB tol rrs).getD true) lam ss
+        if lo != hi then "err Borderline" else okLast (lo.foldl (· ++ ·) #[])
   | _, _ => "err BadOp"
 
 end DirectVerif.Driver.C19
